@@ -1177,6 +1177,9 @@ class Interp:
         d.entries.append([key, v])
 
     def setitem(self, st, obj, idx, v, node=None):
+        for nm, a in st.ghost.get("array_args", []):
+            if a is obj:
+                st.ghost.setdefault("illegal_writes", []).append("item assignment into the caller's array argument '%s' (line %s)" % (nm, getattr(node, "lineno", "?")))
         if isinstance(obj, VList):
             if isinstance(idx, int) and -len(obj.items) <= idx < len(obj.items):
                 obj.items[idx] = v
@@ -1218,6 +1221,11 @@ class Interp:
             cur = self.lookup(st, fr, t.id)
             cur_r = self.resolve(st, cur)
             rhs = self.eval(st, fr, node.value)
+            # numpy: `x op= y` on an ndarray updates the array in place.  When x still IS an argument that the contract
+            # declares array-capable (index semantics, A2), the caller's array is written: a frame violation
+            for nm, v in st.ghost.get("array_args", []):
+                if v is cur or v is cur_r:
+                    st.ghost.setdefault("illegal_writes", []).append("in-place update of the caller's array argument '%s' (line %d)" % (nm, node.lineno))
             if isinstance(cur_r, VObj) and isinstance(node.op, ast.Add):
                 info = self.obj_class(cur_r)
                 if info and "__iadd__" in info.methods:
